@@ -162,6 +162,29 @@ func evalName(c *runlib.Ctx, fam, s string) (nontrivial bool) {
 		}
 	}
 
+	// The validators are pure: the verdict on a name may not depend on which
+	// validator saw it before.  The first pass went strict to permissive; call
+	// them again in the opposite order and in a mixed one.
+	if !panicked {
+		for _, order := range [][]int{{2, 1, 0}, {1, 2, 0, 2, 1}} {
+			for _, i := range order {
+				fn := nameFns[i]
+				var err error
+				if pv, _ := runlib.Try(func() { err = fn.impl(s) }); pv != nil {
+					c.Violation(fn.name+"/panic/"+h, fn.name+"("+h+") panicked on a repeated call: "+panicText(pv), w)
+
+					continue
+				}
+
+				if (err == nil) != got[i] {
+					c.Violation(fn.name+"/order-dependent/"+h, fmt.Sprintf(
+						"%s(%s) %ss when called first and %ss after the other validators saw the same name: the verdict depends on the call history",
+						fn.name, h, b2s(got[i]), b2s(err == nil)), w)
+				}
+			}
+		}
+	}
+
 	if !panicked {
 		if got[0] && !got[1] {
 			c.Violation("implication/host-srv/"+h, "hostname-valid but not SRV-valid: "+h, w)
